@@ -15,6 +15,11 @@
   rewrites that follow the `try` block of a user call); a failing top-level call runs the trail newest-first
   exactly as `for undo_func in reversed(undo_funcs): undo_func()`.
 
+  The code mirrored is /repo AFTER the repairs found with this check: ac6c1c2 (Set.__set__ registers an undo when called
+  with an undo list), 42ccfa3 (_delete_ clears a one-to-one partner only if it still points back), 34f1ffe (no clearing of
+  the object itself under a symmetric attribute), 8185edc (_delete_: a re-entered frame stops when a nested frame of the
+  same object has finished; the status undo is registered just before the status change).
+
   Sections: 1 schema · 2 object store · 3 undo trail · 4 result monad · 5 per-attribute procedures ·
             6 collection procedures · 7 delete · 8 top-level calls · 9 operations and `step`.
 
